@@ -296,12 +296,12 @@ theorem json_roundtrip_wrapped {α} (toText : α → Str) (ofText : Str → Outc
   rw [trimQuote_quote _ hq, hrt]
 
 /-- ton.AccountID (json.Marshal of the raw form, json.Unmarshal into a string, then the address parser): round-trips
-whenever the raw-form parser does (C17, hypothesis `hrt`) and the raw form needs no JSON escapes -/
+whenever the raw-form parser does (C17, hypothesis `hrt`) and the raw form is ASCII text that needs no JSON escapes -/
 theorem json_roundtrip_via_string {α} (toText : α → Str) (ofText : Str → Outcome α) (v : α)
-    (hrt : ofText (toText v) = .ok v) (hs : ∀ c ∈ toText v, isSafe c = true) :
+    (hrt : ofText (toText v) = .ok v) (hs : ∀ c ∈ toText v, isSafe c = true) (ha : ∀ c ∈ toText v, isAscii c = true) :
     parseViaString ofText (printWrapped toText v) = .ok v := by
   unfold parseViaString printWrapped
-  rw [unmarshalString_quote _ hs]
+  rw [unmarshalString_quote _ hs ha]
   exact hrt
 
 /-! ## validity of the emitted JSON, totality of the parsers -/
